@@ -16,7 +16,7 @@ MANIFEST = dict(
          "so the solver itself produces every permutation, omission, duplication, addition and type confusion. Reference written from the statement: strict + (duplicate or id set != call id set) -> IdentityError; "
          "non-response body -> DeserializationError; accepted responses are related to the request with the same id and positional / tuple results follow CALL order; errors are raised.",
     ref='5 C08',
-    note="Request ids of batches are the concrete ids 1..n of the default sequential generator, 0..n-1 (a falsy id) or the strings '', 'a', ..; the batch request is built by the constructor, by append or by extend onto a non-empty batch; response ids are unbounded symbolic ints or strings of length <= 2. "
+    note="Request ids of batches are the concrete ids 1..n of the default sequential generator, 0..n-1 (a falsy id) or the strings '', 'a', ..; the batch request is built by the constructor, by append or by extend onto a non-empty batch, and also sent a second time after a first, well-answered send; response ids are unbounded symbolic ints or strings of length <= 2. "
          "A surplus response with a null id is accepted either way (the statement is silent).",
 )
 BOUNDS = {
@@ -62,6 +62,9 @@ def obligations(tier):
                     for notif in ((False, True) if ncalls == 2 else (False,)):
                         obs.append({'h': 'batch', 'ncalls': ncalls, 'els': list(combo), 'notif': notif, 'strict': strict,
                                     'kind': kind, '_weight': 4 ** n})
+                        if ncalls == 2 and n <= 2 and set(combo) <= {'ok_i'} and strict:
+                            obs.append({'h': 'batch', 'ncalls': ncalls, 'els': list(combo), 'notif': notif, 'strict': strict,
+                                        'kind': kind, 'resend': 1, '_weight': 4 ** n})
                         if n >= ncalls and not notif and n <= 3:
                             # falsy ids among the calls: ids 0..n-1, and string ids '' / 'a'
                             if set(combo) <= {'ok_i', 'err_i'}:
@@ -279,7 +282,15 @@ def h_batch(ob):
             else:
                 body.append({'jsonrpc': '2.0', 'id': None, 'result': env.int(f'r{j}')})
                 tags.append('n')
-        rig = ClientRig(env, ob['kind'], lambda n, doc, notif: body, strict=ob['strict'])
+        if ob.get('resend'):
+            # the SAME batch request object is sent twice: first answered completely and in order, then with `body`
+            good = [{'jsonrpc': '2.0', 'id': c, 'result': 0} for c in call_ids]
+            rig = ClientRig(env, ob['kind'], lambda n, doc, notif: good if n == 0 else body, strict=ob['strict'])
+            st0, _ = _attempt(lambda: rig.do(lambda c: c.batch.send(br)))
+            if st0 != 'ok':
+                raise Violation('first-send-of-a-well-answered-batch-failed:' + st0, good)
+        else:
+            rig = ClientRig(env, ob['kind'], lambda n, doc, notif: body, strict=ob['strict'])
         st, resp = _attempt(lambda: rig.do(lambda c: c.batch.send(br)))
         env.reached()
         if st in ('deser', 'error'):
